@@ -83,6 +83,17 @@ CHECKS["C11"] = dict(engine="tlc+vdrive",
    text="TLC explores every interleaving of callers, senders, receivers, the 1 s ticker and idle closes by the server for 3 connections x 2 (thorough: 3) requests: the repaired design satisfies the three properties, the original design violates each of them (checked on every run as a vacuity guard). Real client runs (2-4 calls, server closes the connection in use between calls, next call 0 ms - 1.1 s later, 1-12 ms delays injected at one or two of nine hook points to force rare interleavings) are recorded through hooks taken under the connection lock where the code decides (dial, close, liveness check) and validated step by step; a call issued after the client saw the close must succeed.",
    design_ref="5/C11", note="Trusted: hook placement (decision points under connLock), the Go runtime's FIFO hand-off as modelled. Calls that race with a close are exempt as in the statement. The close-notification (push) path of the adapter is not driven.")
 
+CHECKS["C13"] = dict(engine="tlc+seldrive",
+   technique="TLA+ spec Selector.tla (host-deduplicated member list, four strategies, static-weight cycle transliterated and proven equal to the statement's formula by TLC over weight vectors) model-checked over all histories to a depth; TLC-enumerated histories replayed on the four real selectors and judged by TLC (Oracle_Selector), real BuildStaticWeightList vs reference, concurrent runs validated by Trace_Selector (each Select placed atomically between its begin and end)",
+   category="model_checking",
+   text="TLC checks membership, error-iff-none-eligible, strict rotation and the weighted cycle count max(1, floor(W*R/Wmax)) for every history up to a depth over 3-4 hosts and every weight vector of a scope; it then enumerates every history (and samples deeper ones) as implementation tests: the driver applies them to the real roundrobin / random / modhash / consistenthash selectors and records a window of selections after every operation; the oracle judges panics, non-members, selected-though-none-eligible, error-though-eligible, rotation and weighted cycle. Concurrent selectors/updaters are recorded with begin/end events and validated by TLC; the same scenario runs under -race (reports are observations).",
+   design_ref="5/C13", note="Trusted: Selector.tla (order/slot choices where the statement is silent are observations only); the consistent-hash ring itself is C14's subject.")
+CHECKS["C14"] = dict(engine="tlc+ringdrive",
+   technique="TLA+ spec HashRing.tla (ring as a function of the member set with points as parameter, Lookup with wrap, ModSlot on 16-bit halves, weighted cycle) model-checked for determinism / history independence / minimal disruption; batch oracle (Oracle_HashRing): real consistenthash/modhash answers for ring points, their neighbours and boundary codes along different histories reaching the same set, judged against Lookup/ModSlot with independently computed MD5 points; end-to-end calls with SetClientHash over scripted servers",
+   category="model_checking",
+   text="TLC proves on small abstract universes that routing is a function of the member set (any two Add/Remove/Refresh histories reaching the same set agree), that removal re-routes only the removed host's codes and addition only moves codes onto the new host; the driver computes the real virtual points independently (crypto/md5), drives the real selectors through twin histories and probes every ring point +-1, 0, 2^32-1 and random codes; TLC judges every answer and the differential statements on consecutive real answers; a universe with a brute-forced 32-bit point collision is included; calls made with a hash code in the context are routed over 5 scripted servers and compared with Lookup/ModSlot over Endpoints().",
+   design_ref="5/C14", note="Trusted: MD5 as data; HashRing.tla; the weighted mod-hash verdict uses the cycle the real builder returns (its contents are C13's subject).")
+
 PENDING = {}
 
 def main():
